@@ -198,7 +198,7 @@ pub fn hostile_case(p: &Profile) -> BoxedStrategy<HostileCase> {
         2 => (0u8..3, big(), 0u8..3).prop_map(|(channel, seq, kind)| Hostile::Sudo { channel, seq, kind }),
         8 => (0u8..10, 0u8..17, big(), big128(), 0u8..6).prop_map(|(who, msg, a, b, funds)| Hostile::Exec { who, msg, a, b, funds }),
         4 => (0u8..11, big(), prop_oneof![Just(0u32), Just(1u32), Just(u32::MAX), 0u32..20]).prop_map(|(msg, a, b)| Hostile::Query { msg, a, b }),
-        1 => (0u8..3, 0u8..10, 0u8..3).prop_map(|(path, version, name)| Hostile::Migrate { path, version, name }),
+        1 => (0u8..3, 0u8..20, 0u8..3).prop_map(|(path, version, name)| Hostile::Migrate { path, version, name }),
         3 => (0u8..17, any::<u16>(), any::<u8>()).prop_map(|(msg, at, byte)| Hostile::Json { msg, at, byte }),
     ];
     (case_strategy(p), proptest::collection::vec(call, 5..40)).prop_map(|(case, calls)| HostileCase { case, calls }).boxed()
